@@ -1,6 +1,7 @@
 import GoguVerif.Spec.C17
 import GoguVerif.Model.C17
 import GoguVerif.Lemmas.C17
+import GoguVerif.Lemmas.C17Log
 /-!
 # C17 — property theorems (Memoize: one computation per key at a time, cached value served)
 
@@ -599,5 +600,601 @@ example : memoizeSeq 30 100 5 (some (7, 90)) (.ok 8) =
     { cell := some (8, 135), res := .ok 8, ran := true, now := 105 } := by decide
 example : memoizeSeq 30 90 5 (some (7, 90)) (.ok 8) =
     { cell := some (7, 90), res := .ok 7, ran := false, now := 90 } := by decide
+
+
+/-! ## the property on the event log of a run
+
+`ReachableLog cfg (init c0 now0) s g`: `g` is the event log of some run of the LTS that ends in `s`
+(`Model/C17.lean`, "the event log of a run"): every step gets the next sequence number, so `x < y` between
+log entries means "really happened before".  `invAt c` / `retAt c` stamp caller `c`'s invocation and
+return, `startAt l` / `endAt l` the start and end of the execution of `l`'s function.  The theorems hold
+for every run: any number of callers and keys, any interleaving, any passage of time. -/
+
+variable {s : State} {g : EvLog}
+
+/-- **(1)** executions of one key never overlap: of two executions for the same key, one has ended
+before the other starts (their `[startAt, endAt]` intervals are disjoint; an execution still in
+progress has no later rival) -/
+theorem log_executions_disjoint (h : ReachableLog cfg (init c0 now0) s g) (c c' a a' : Nat)
+    (hne : c ≠ c') (hk : cfg.key c = cfg.key c') (hs : g.startAt c = some a) (hs' : g.startAt c' = some a') :
+    (∃ b, g.endAt c = some b ∧ b < a') ∨ (∃ b', g.endAt c' = some b' ∧ b' < a) := by
+  have hi := (sinv_reachable h).2
+  rcases Nat.le_total a a' with hle | hle
+  · exact Or.inl (hi.dis c c' a a' hne hk hs hs' hle)
+  · exact Or.inr (hi.dis c' c a' a (Ne.symm hne) hk.symm hs' hs hle)
+
+/-- an execution ends after it started, after its caller was invoked; only a caller whose source is
+its own execution has one -/
+theorem log_execution_wellformed (h : ReachableLog cfg (init c0 now0) s g) (l b : Nat)
+    (he : g.endAt l = some b) :
+    ∃ i a, g.invAt l = some i ∧ g.startAt l = some a ∧ i < a ∧ a < b ∧ s.src l = some (.exec l) ∧
+      ∃ r, s.execRes l = some r := by
+  obtain ⟨hi, hs⟩ := sinv_reachable h
+  have h1 := hi.loc l
+  have h2 := hs.loc l
+  unfold Local at h1
+  unfold SLocal at h2
+  cases hp : s.pc l with
+  | idle => simp only [hp] at h2; rw [h2.2.2.2] at he; cases he
+  | start => simp only [hp] at h2; rw [h2.2.2.2] at he; cases he
+  | missed => simp only [hp] at h2; rw [h2.2.2.2] at he; cases he
+  | leader => simp only [hp] at h2; rw [h2.2.2.2] at he; cases he
+  | waiting x => simp only [hp] at h2; rw [h2.2.2.2] at he; cases he
+  | running => simp only [hp] at h2; rw [h2.2.2] at he; cases he
+  | ran x =>
+    simp only [hp] at h1 h2
+    obtain ⟨⟨i, a, b', g1, g2, g3, g4, g5⟩, _⟩ := h2
+    rw [g3] at he; cases he
+    exact ⟨i, a, g1, g2, g4, g5, h1.1, x, h1.2.2.1⟩
+  | setDone x =>
+    simp only [hp] at h1 h2
+    obtain ⟨⟨i, a, b', g1, g2, g3, g4, g5⟩, _⟩ := h2
+    rw [g3] at he; cases he
+    exact ⟨i, a, g1, g2, g4, g5, h1.1, x, h1.2.2.1⟩
+  | done x =>
+    simp only [hp] at h1 h2
+    rcases h1 with ⟨v, _, h3, _⟩ | ⟨h3, _, h4, _⟩ | ⟨y, h3, _, hry, _, _, hrl⟩
+    · simp only [h3] at h2; rw [h2.2.2] at he; cases he
+    · simp only [h3] at h2
+      rcases h2 with ⟨_, i, a, b', t, g1, g2, g3, _, g5, g6, _⟩ | ⟨hne, _⟩
+      · rw [g3] at he; cases he
+        exact ⟨i, a, g1, g2, g5, g6, h3, x, h4⟩
+      · exact absurd rfl hne
+    · simp only [h3] at h2
+      rcases h2 with ⟨hy, _⟩ | ⟨_, _, g2, _⟩
+      · subst hy; rw [hrl] at hry; cases hry
+      · rw [g2] at he; cases he
+
+/-- **(2)** every caller that has returned `r` was invoked before it returned, and `r` is either
+* the cached value its `cacheCheck` read (and then the caller has no execution of its own), or
+* the result of an execution `l` of the same key, where the execution started and ended before the
+  caller returned (`a < b < t`) and the caller was invoked before the execution's own caller `l`
+  returned (`i < tl ≤ t`).
+So the execution *overlapped or preceded* the call in exactly this sense: it never starts after the
+caller has returned, and the call never starts after the execution's result has been handed back to
+its own caller.  It is NOT always true that the execution ended after the caller was invoked: a caller
+invoked between `fnEnd` and `doFinish` of the leader still joins (see the `example` below). -/
+theorem log_result_has_source (h : ReachableLog cfg (init c0 now0) s g) (c : Nat) (r : Res)
+    (hd : s.pc c = .done r) :
+    ∃ i t, g.invAt c = some i ∧ g.retAt c = some t ∧ i < t ∧
+      ((∃ v, r = .ok v ∧ s.src c = some (.hit v) ∧ g.startAt c = none) ∨
+       (∃ l a b tl, s.src c = some (.exec l) ∧ cfg.key l = cfg.key c ∧ s.execRes l = some r ∧
+          g.startAt l = some a ∧ g.endAt l = some b ∧ g.retAt l = some tl ∧
+          a < b ∧ b < t ∧ i < tl ∧ tl ≤ t)) := by
+  obtain ⟨hi, hs⟩ := sinv_reachable h
+  have h1 := hi.loc c
+  have h2 := hs.loc c
+  simp only [Local, hd] at h1
+  simp only [SLocal, hd] at h2
+  rcases h1 with ⟨v, g1, g2, _⟩ | ⟨g1, _, g3, _⟩ | ⟨l, g1, g2, g3, _, _, g6⟩
+  · simp only [g2] at h2
+    obtain ⟨⟨i, t, k1, k2, k3⟩, k4, _⟩ := h2
+    exact ⟨i, t, k1, k2, k3, Or.inl ⟨v, g1, g2, k4⟩⟩
+  · simp only [g1] at h2
+    rcases h2 with ⟨_, i, a, b, t, k1, k2, k3, k4, k5, k6, k7⟩ | ⟨hne, _⟩
+    · exact ⟨i, t, k1, k4, by omega, Or.inr ⟨c, a, b, t, g1, rfl, g3, k2, k3, k4, k6, k7, by omega, Nat.le_refl t⟩⟩
+    · exact absurd rfl hne
+  · simp only [g1] at h2
+    have hex := (published (hi.loc l) g3).1
+    rcases h2 with ⟨hl, _⟩ | ⟨_, _, _, i, t, a, b, tl, k1, k2, k3, k4, k5, k6, k7, k8, k9⟩
+    · subst hl; rw [g6] at g3; cases g3
+    · exact ⟨i, t, k1, k2, by omega, Or.inr ⟨l, a, b, tl, g1, g2, hex, k3, k4, k5, k6, by omega, k9, by omega⟩⟩
+
+/-- **(3)** callers that joined the same execution (leader included) got equal results -/
+theorem log_joiners_equal (h : ReachableLog cfg (init c0 now0) s g) (c c' l : Nat) (r r' : Res)
+    (hs : s.src c = some (.exec l)) (hs' : s.src c' = some (.exec l))
+    (hd : s.pc c = .done r) (hd' : s.pc c' = .done r') : r = r' :=
+  joiners_equal (reachableLog_reachable h) c c' l r r' hs hs' hd hd'
+
+/-- **(4)** a caller whose `cacheCheck` found a live value (its source is that hit — `hit_reads_cache`
+— and stays so — `src_hit_stable`) has returned that value and the log of every later moment contains
+no execution of its function: it caused no `fnStart` -/
+theorem log_hit_causes_no_start (h : ReachableLog cfg (init c0 now0) s g) (c : Nat) (v : Int)
+    (hs : s.src c = some (.hit v)) :
+    s.pc c = .done (.ok v) ∧ g.startAt c = none ∧ g.endAt c = none := by
+  obtain ⟨hi, hsi⟩ := sinv_reachable h
+  have hp := (hit_local (hi.loc c) hs).1
+  have h2 := hsi.loc c
+  simp only [SLocal, hp, hs] at h2
+  exact ⟨hp, h2.2.1, h2.2.2⟩
+
+/-- conversely, an execution in the log belongs to a caller that missed the cache and became the
+leader of its key's call -/
+theorem log_start_only_by_leader (h : ReachableLog cfg (init c0 now0) s g) (c a : Nat)
+    (hs : g.startAt c = some a) : s.src c = some (.exec c) ∧ ∃ i, g.invAt c = some i ∧ i < a := by
+  obtain ⟨hi, hsi⟩ := sinv_reachable h
+  have h1 := hi.loc c
+  have h2 := hsi.loc c
+  unfold Local at h1
+  unfold SLocal at h2
+  cases hp : s.pc c with
+  | idle => simp only [hp] at h2; rw [h2.2.2.1] at hs; cases hs
+  | start => simp only [hp] at h2; rw [h2.2.2.1] at hs; cases hs
+  | missed => simp only [hp] at h2; rw [h2.2.2.1] at hs; cases hs
+  | leader => simp only [hp] at h2; rw [h2.2.2.1] at hs; cases hs
+  | waiting x => simp only [hp] at h2; rw [h2.2.2.1] at hs; cases hs
+  | running =>
+    simp only [hp] at h1 h2
+    obtain ⟨⟨i, a', g1, g2, g3⟩, _⟩ := h2
+    rw [g2] at hs; cases hs
+    exact ⟨h1.1, i, g1, g3⟩
+  | ran x =>
+    simp only [hp] at h1 h2
+    obtain ⟨⟨i, a', b, g1, g2, _, g4, _⟩, _⟩ := h2
+    rw [g2] at hs; cases hs
+    exact ⟨h1.1, i, g1, g4⟩
+  | setDone x =>
+    simp only [hp] at h1 h2
+    obtain ⟨⟨i, a', b, g1, g2, _, g4, _⟩, _⟩ := h2
+    rw [g2] at hs; cases hs
+    exact ⟨h1.1, i, g1, g4⟩
+  | done x =>
+    simp only [hp] at h1 h2
+    rcases h1 with ⟨v, _, h3, _⟩ | ⟨h3, _⟩ | ⟨y, h3, _, hry, _, _, hrl⟩
+    · simp only [h3] at h2; rw [h2.2.1] at hs; cases hs
+    · simp only [h3] at h2
+      rcases h2 with ⟨_, i, a', b, t, g1, g2, _, _, g5, _⟩ | ⟨hne, _⟩
+      · rw [g2] at hs; cases hs
+        exact ⟨h3, i, g1, g5⟩
+      · exact absurd rfl hne
+    · simp only [h3] at h2
+      rcases h2 with ⟨hy, _⟩ | ⟨_, g2, _⟩
+      · subst hy; rw [hrl] at hry; cases hry
+      · rw [g2] at hs; cases hs
+
+/-- **(5)** after a history in which every execution for `k` that has ended returned an error (and
+nothing was cached for `k` beforehand), the cache holds no entry for `k` -/
+theorem log_error_only_history (h : ReachableLog cfg (init c0 now0) s g) (k : Nat) (h0 : c0 k = none)
+    (herr : ∀ l b, cfg.key l = k → g.endAt l = some b → s.execRes l = some .err) : s.cache k = none := by
+  refine error_only_history_leaves_cache_empty (reachableLog_reachable h) k h0 ?_
+  intro l v hl hr
+  obtain ⟨b, hb⟩ := execRes_logged (sinv_reachable h).1 (sinv_reachable h).2 hr
+  have := herr l b hl hb
+  rw [this] at hr
+  cases hr
+
+/-- the log of a script: `runLog` produces reachable (state, log) pairs -/
+theorem runLog_reachable (s0 : State) (ls : List Label) (s1 s2 : State) (g1 g2 : EvLog)
+    (h : ReachableLog cfg s0 s1 g1) (hr : runLog cfg s1 g1 ls = some (s2, g2)) :
+    ReachableLog cfg s0 s2 g2 := by
+  induction ls generalizing s1 g1 with
+  | nil => simp only [runLog, Option.some.injEq, Prod.mk.injEq] at hr; rw [← hr.1, ← hr.2]; exact h
+  | cons l ls ih =>
+    simp only [runLog] at hr
+    split at hr
+    · rename_i s' hs'
+      exact ih s' _ (ReachableLog.step l h hs') hr
+    · cases hr
+
+/-- "ended after the caller was invoked" is not a theorem: caller 2 is invoked (event 5) after caller
+1's function has ended (event 4) and still receives that execution's result through the flight -/
+def exLateJoin : List Label := [.invoke 1, .cacheCheck 1, .doEnter 1, .fnStart 1, .fnEnd 1 (.ok 7),
+  .invoke 2, .cacheCheck 2, .doEnter 2, .cacheSet 1, .doFinish 1, .wake 2]
+
+example : (runLog (exCfg (-1)) exInit EvLog.empty exLateJoin).map (fun p => (p.1.pc 2, p.1.src 2)) =
+    some (.done (.ok 7), some (.exec 1)) := by decide
+example : (runLog (exCfg (-1)) exInit EvLog.empty exLateJoin).map
+    (fun p => (p.2.endAt 1, p.2.invAt 2, p.2.retAt 1, p.2.retAt 2)) = some (some 4, some 5, some 9, some 10) := by
+  decide
+
+
+/-! ## from the LTS's event log to the monitor's log: every run satisfies the monitor's clauses
+
+`specExecs` / `specCalls` render the event log of a run, restricted to a finite list `ids` of callers,
+in the very format the decidable monitor `Spec.C17.check` evaluates (`Spec.C17.Exec`, `Spec.C17.Call`:
+sequence numbers, instants, outcome, value, source index).  The theorems below say that the monitor's
+clauses evaluate to `true` on the log of EVERY run of the LTS. -/
+
+def resOut : Res → Int
+  | .ok _ => 0
+  | .err => 1
+
+def resVal : Res → Int
+  | .ok v => v
+  | .err => 0
+
+/-- the completed execution of `l`'s function as the monitor sees it -/
+def specExec (cfg : Cfg) (s : State) (g : EvLog) (l : Nat) : Option Spec.C17.Exec :=
+  match g.startAt l, g.endAt l, s.execRes l, g.startT l, g.endT l with
+  | some a, some b, some r, some ta, some tb =>
+    some { key := cfg.key l, startSeq := a, startT := ta, endSeq := b, endT := tb, leader := l,
+           out := resOut r, val := resVal r }
+  | _, _, _, _, _ => none
+
+def specExecs (cfg : Cfg) (s : State) (g : EvLog) (ids : List Nat) : List Spec.C17.Exec :=
+  ids.filterMap (specExec cfg s g)
+
+theorem specExec_some {l : Nat} {e : Spec.C17.Exec} (h : specExec cfg s g l = some e) :
+    ∃ a b r, g.startAt l = some a ∧ g.endAt l = some b ∧ s.execRes l = some r ∧
+      e.key = cfg.key l ∧ e.startSeq = a ∧ e.endSeq = b ∧ e.leader = l ∧ e.out = resOut r ∧ e.val = resVal r ∧
+      g.startT l = some e.startT ∧ g.endT l = some e.endT := by
+  unfold specExec at h
+  split at h
+  · rename_i a b r ta tb h1 h2 h3 h4 h5
+    simp only [Option.some.injEq] at h
+    subst h
+    exact ⟨a, b, r, h1, h2, h3, rfl, rfl, rfl, rfl, rfl, rfl, h4, h5⟩
+  · cases h
+
+theorem exclusive_of_pairwise (es : List Spec.C17.Exec)
+    (h : es.Pairwise (fun e f => f.key ≠ e.key ∨ Spec.C17.disjoint e f = true)) :
+    Spec.C17.exclusive es = true := by
+  induction es with
+  | nil => rfl
+  | cons e r ih =>
+    rw [List.pairwise_cons] at h
+    simp only [Spec.C17.exclusive, Bool.and_eq_true, List.all_eq_true, Bool.or_eq_true, bne_iff_ne]
+    exact ⟨fun f hf => h.1 f hf, ih h.2⟩
+
+/-- **monitor clause `one-execution-per-key-at-a-time` (interval part)**: on the log of every run, for
+every duplicate-free list of callers, `Spec.C17.exclusive` holds of the rendered executions -/
+theorem monitor_exclusive (h : ReachableLog cfg (init c0 now0) s g) (ids : List Nat) (hn : ids.Nodup) :
+    Spec.C17.exclusive (specExecs cfg s g ids) = true := by
+  apply exclusive_of_pairwise
+  unfold specExecs
+  refine List.Pairwise.filterMap (R := fun a b => a ≠ b) _ ?_ hn
+  intro l l' hne e he e' he'
+  obtain ⟨a, b, r, h1, h2, _, k1, k2, k3, _⟩ := specExec_some he
+  obtain ⟨a', b', r', h1', h2', _, k1', k2', k3', _⟩ := specExec_some he'
+  by_cases hk : cfg.key l = cfg.key l'
+  · right
+    simp only [Spec.C17.disjoint, Bool.or_eq_true, decide_eq_true_eq, k2, k3, k2', k3']
+    rcases log_executions_disjoint h l l' a a' hne hk h1 h1' with ⟨x, hx, hlt⟩ | ⟨x, hx, hlt⟩
+    · rw [h2] at hx; cases hx; left; omega
+    · rw [h2'] at hx; cases hx; right; omega
+  · left
+    rw [k1, k1']
+    intro hc
+    exact hk (by omega)
+
+/-- **monitor clause `one-execution-per-key-at-a-time` (counter part)**: the maximum of the in-flight
+counter of every key is at most 1 at every moment of every run -/
+theorem monitor_maxIn (h : ReachableLog cfg (init c0 now0) s g) (keys : List Nat) :
+    (keys.map (fun k => (s.inflight k : Int))).all (· ≤ 1) = true := by
+  simp only [List.all_eq_true, List.mem_map, decide_eq_true_eq]
+  rintro x ⟨k, _, rfl⟩
+  have := one_execution_per_key (reachableLog_reachable h) k
+  omega
+
+
+/-- the monitor's source index: position of the execution led by `l` among the rendered executions -/
+def srcIndex (execs : List Spec.C17.Exec) : Option Src → Int
+  | some (.exec l) =>
+    match execs.findIdx? (fun e => e.leader == (l : Int)) with
+    | some i => (i : Int)
+    | none => -1
+  | _ => -1
+
+/-- a returned call as the monitor sees it -/
+def specCall (cfg : Cfg) (s : State) (g : EvLog) (execs : List Spec.C17.Exec) (c : Nat) : Option Spec.C17.Call :=
+  match s.pc c, g.invAt c, g.retAt c, g.invT c, g.retT c with
+  | .done r, some i, some t, some ti, some tt =>
+    some { id := c, key := cfg.key c, invSeq := i, invT := ti, retSeq := t, retT := tt,
+           out := resOut r, val := resVal r, src := srcIndex execs (s.src c) }
+  | _, _, _, _, _ => none
+
+def specCalls (cfg : Cfg) (s : State) (g : EvLog) (ids : List Nat) : List Spec.C17.Call :=
+  ids.filterMap (specCall cfg s g (specExecs cfg s g ids))
+
+theorem specCall_some {execs : List Spec.C17.Exec} {c : Nat} {x : Spec.C17.Call}
+    (h : specCall cfg s g execs c = some x) :
+    ∃ r i t, s.pc c = .done r ∧ g.invAt c = some i ∧ g.retAt c = some t ∧ x.id = c ∧ x.key = cfg.key c ∧
+      x.invSeq = i ∧ x.retSeq = t ∧ x.out = resOut r ∧ x.val = resVal r ∧ x.src = srcIndex execs (s.src c) ∧
+      g.invT c = some x.invT ∧ g.retT c = some x.retT := by
+  unfold specCall at h
+  split at h
+  · rename_i r i t ti tt h1 h2 h3 h4 h5
+    simp only [Option.some.injEq] at h
+    subst h
+    exact ⟨r, i, t, h1, h2, h3, rfl, rfl, rfl, rfl, rfl, rfl, rfl, h4, h5⟩
+  · cases h
+
+theorem result_render (r : Res) (e : Spec.C17.Exec) (ho : e.out = resOut r) (hv : e.val = resVal r) :
+    ((resOut r, resVal r) == e.result) = true := by
+  cases r with
+  | ok v => simp [Spec.C17.Exec.result, ho, hv, resOut, resVal]
+  | err => simp [Spec.C17.Exec.result, ho, resOut, resVal]
+
+theorem srcIndex_exec (execs : List Spec.C17.Exec) (l : Nat) :
+    srcIndex execs (some (.exec l)) = -1 ∨
+    ∃ (j : Nat) (e : Spec.C17.Exec), srcIndex execs (some (.exec l)) = (j : Int) ∧ execs[j]? = some e ∧
+      e.leader = (l : Int) := by
+  simp only [srcIndex]
+  split
+  · rename_i j hf
+    right
+    have hj := List.of_findIdx?_eq_some hf
+    cases he : execs[j]? with
+    | none => rw [he] at hj; cases hj
+    | some e =>
+      rw [he] at hj
+      simp only [beq_iff_eq] at hj
+      exact ⟨j, e, rfl, he, hj⟩
+  · left; rfl
+
+/-- **monitor clause `joiners-get-the-executions-result`**: on the log of every run, every returned
+caller whose source index points at an execution has that execution's key, outcome and value -/
+theorem monitor_srcConsistent (h : ReachableLog cfg (init c0 now0) s g) (ids : List Nat) :
+    (specCalls cfg s g ids).all (Spec.C17.srcConsistent (specExecs cfg s g ids)) = true := by
+  simp only [List.all_eq_true]
+  intro x hx
+  simp only [specCalls, List.mem_filterMap] at hx
+  obtain ⟨c, _, hc⟩ := hx
+  obtain ⟨r, i, t, hd, _, _, _, hkey, _, _, hout, hval, hsrc, _, _⟩ := specCall_some hc
+  unfold Spec.C17.srcConsistent
+  rw [hsrc]
+  cases hs : s.src c with
+  | none => simp [srcIndex]
+  | some y =>
+    cases y with
+    | hit v => simp [srcIndex]
+    | exec l =>
+      rcases srcIndex_exec (specExecs cfg s g ids) l with h1 | ⟨j, e, h1, he, hj⟩
+      · rw [h1]; simp
+      · rw [h1]
+        simp only [Bool.or_eq_true]
+        right
+        have hnn : ((j : Int) ≥ 0) := by omega
+        simp only [hnn, if_true, Int.toNat_natCast, he]
+        have hmem := List.mem_of_getElem? he
+        simp only [specExecs, List.mem_filterMap] at hmem
+        obtain ⟨l', _, hl'⟩ := hmem
+        obtain ⟨a, b, r', _, _, hr', k1, _, _, k4, k5, k6⟩ := specExec_some hl'
+        have hll : l' = l := by rw [k4] at hj; omega
+        subst hll
+        have hr := execution_result_returned (reachableLog_reachable h) c l' r hs hd
+        rw [hr] at hr'; cases hr'
+        have hk : cfg.key l' = cfg.key c := by
+          rcases result_has_source (reachableLog_reachable h) c r hd with ⟨v, _, h2⟩ | ⟨l2, h1, h2, _⟩
+          · rw [hs] at h2; cases h2
+          · rw [hs] at h1; cases h1; exact h2
+        simp only [Bool.and_eq_true, beq_iff_eq]
+        refine ⟨by rw [k1, hkey, hk], ?_⟩
+        rw [hout, hval]
+        exact eq_of_beq (result_render r e k5 k6.1)
+
+
+/-- **monitor clause `result-is-value-or-error`** -/
+theorem monitor_resultShape (ids : List Nat) :
+    (specCalls cfg s g ids).all (fun c => c.out == 0 || c.out == 1) = true := by
+  simp only [List.all_eq_true]
+  intro x hx
+  simp only [specCalls, List.mem_filterMap] at hx
+  obtain ⟨c, _, hc⟩ := hx
+  obtain ⟨r, _, _, _, _, _, _, _, _, _, hout, _⟩ := specCall_some hc
+  cases r <;> simp [hout, resOut]
+
+/-- every returned caller is rendered -/
+theorem specCall_complete (h : ReachableLog cfg (init c0 now0) s g) (execs : List Spec.C17.Exec) (c : Nat) (r : Res)
+    (hd : s.pc c = .done r) : ∃ x, specCall cfg s g execs c = some x := by
+  obtain ⟨i, t, h1, h2, _⟩ := log_result_has_source h c r hd
+  have tk := timok_reachable h
+  have k1 := tk.inv c
+  have k2 := tk.ret c
+  rw [h1] at k1; rw [h2] at k2
+  obtain ⟨ti, hti⟩ := Option.isSome_iff_exists.1 k1
+  obtain ⟨tt, htt⟩ := Option.isSome_iff_exists.1 k2
+  simp only [specCall, hd, h1, h2, hti, htt]
+  exact ⟨_, rfl⟩
+
+/-- the scenario's callers have all returned (or were never invoked) -/
+def Quiescent (s : State) (ids : List Nat) : Prop := ∀ c ∈ ids, s.pc c = .idle ∨ ∃ r, s.pc c = .done r
+
+theorem leaders_nodup (ids : List Nat) (hn : ids.Nodup) :
+    ((specExecs cfg s g ids).map (·.leader)).Nodup := by
+  unfold specExecs
+  rw [List.Nodup, List.pairwise_map]
+  refine List.Pairwise.filterMap (R := fun a b => a ≠ b) _ ?_ hn
+  intro l l' hne e he e' he'
+  obtain ⟨_, _, _, _, _, _, _, _, _, k, _⟩ := specExec_some he
+  obtain ⟨_, _, _, _, _, _, _, _, _, k', _⟩ := specExec_some he'
+  rw [k, k']
+  intro hc
+  exact hne (by omega)
+
+/-- **monitor clause `execution-started-at-once-by-its-caller` (second half)**: no caller leads two
+executions -/
+theorem monitor_leadsAtMostOnce (ids : List Nat) (hn : ids.Nodup) :
+    Spec.C17.leadsAtMostOnce (specExecs cfg s g ids) = true := by
+  unfold Spec.C17.leadsAtMostOnce
+  simp only [eraseDups_of_nodup _ (leaders_nodup (cfg := cfg) (s := s) (g := g) ids hn), beq_self_eq_true]
+
+/-- **monitor clause `execution-started-at-once-by-its-caller` (first half)**, under the virtual clock
+and once the scenario's callers have returned: every execution in the log belongs to a returned
+caller of the same key, lies strictly inside that caller's call, and started at the very instant the
+caller was invoked -/
+theorem monitor_execOwned (h : ReachableLogP cfg (init c0 now0) s g) (ids : List Nat) (hq : Quiescent s ids) :
+    (specExecs cfg s g ids).all (Spec.C17.execOwned (specCalls cfg s g ids)) = true := by
+  have h' := reachableLogP_reachableLog h
+  simp only [List.all_eq_true]
+  intro e he
+  simp only [specExecs, List.mem_filterMap] at he
+  obtain ⟨l, hl, hle⟩ := he
+  obtain ⟨a, b, r, h1, h2, h3, k1, k2, k3, k4, _, _, k7, _⟩ := specExec_some hle
+  obtain ⟨i, a', g1, g2, g3, g4, g5, _⟩ := log_execution_wellformed h' l b h2
+  rw [h1] at g2; cases g2
+  have hdone : ∃ r', s.pc l = .done r' := by
+    rcases hq l hl with hp | hp
+    · have := (sinv_reachable h').2.loc l
+      simp only [SLocal, hp] at this
+      rw [this.1] at g1; cases g1
+    · exact hp
+  obtain ⟨r', hd⟩ := hdone
+  obtain ⟨x, hx⟩ := specCall_complete h' (specExecs cfg s g ids) l r' hd
+  obtain ⟨r'', i', t, hd', j1, j2, j3, j4, j5, j6, _, _, _, j10, _⟩ := specCall_some hx
+  rw [g1] at j1; cases j1
+  have hbt : b < t := by
+    obtain ⟨i2, t2, m1, m2, _, m4⟩ := log_result_has_source h' l r' hd
+    rw [j2] at m2; cases m2
+    rcases m4 with ⟨v, _, m5, _⟩ | ⟨l2, a2, b2, tl, m5, _, _, _, m8, _, _, m10, _⟩
+    · rw [g5] at m5; cases m5
+    · rw [g5] at m5; cases m5
+      rw [h2] at m8; cases m8
+      exact m10
+  have htim : e.startT = x.invT := by
+    have tl := (tinv_reachable h).loc l
+    simp only [TLocal, hd, g5] at tl
+    rcases tl with ⟨_, ti, te, n1, n2, _⟩ | ⟨hne, _⟩
+    · have e1 : e.startT = ti := Option.some.inj (k7.symm.trans n2)
+      have e2 : x.invT = ti := Option.some.inj (j10.symm.trans n1)
+      rw [e1, e2]
+    · exact absurd rfl hne
+  simp only [Spec.C17.execOwned, List.any_eq_true]
+  refine ⟨x, ?_, ?_⟩
+  · simp only [specCalls, List.mem_filterMap]
+    exact ⟨l, hl, hx⟩
+  · simp only [Bool.and_eq_true, beq_iff_eq, decide_eq_true_eq]
+    refine ⟨⟨⟨⟨by rw [j3, k4], by rw [j4, k1]⟩, by rw [j5, k2]; omega⟩, by rw [j6, k3]; omega⟩, htim⟩
+
+
+/-- the rendered call of the caller that led an execution is what `leaderRet` finds -/
+theorem leaderRet_of_done (h : ReachableLog cfg (init c0 now0) s g) (ids : List Nat) (l : Nat) (hl : l ∈ ids)
+    (r : Res) (tl : Nat) (hd : s.pc l = .done r) (hr : g.retAt l = some tl) (e : Spec.C17.Exec)
+    (he : e.leader = (l : Int)) :
+    Spec.C17.leaderRet (specCalls cfg s g ids) e = some (tl : Int) := by
+  obtain ⟨x, hx⟩ := specCall_complete h (specExecs cfg s g ids) l r hd
+  have hmem : x ∈ specCalls cfg s g ids := by
+    simp only [specCalls, List.mem_filterMap]; exact ⟨l, hl, hx⟩
+  obtain ⟨_, _, t, _, _, j2, j3, _, _, j6, _⟩ := specCall_some hx
+  rw [hr] at j2; cases j2
+  unfold Spec.C17.leaderRet
+  cases hf : (specCalls cfg s g ids).find? (fun c => c.id == e.leader) with
+  | none =>
+    rw [List.find?_eq_none] at hf
+    exact absurd (by simp [j3, he]) (hf x hmem)
+  | some y =>
+    have hy := List.find?_some hf
+    have hym := List.mem_of_find?_eq_some hf
+    simp only [beq_iff_eq] at hy
+    simp only [specCalls, List.mem_filterMap] at hym
+    obtain ⟨c', _, hc'⟩ := hym
+    obtain ⟨_, _, _, _, _, _, i3, _⟩ := specCall_some hc'
+    have : c' = l := by rw [i3, he] at hy; omega
+    subst this
+    rw [hx] at hc'; cases hc'
+    simp [j6]
+
+/-- **monitor clause `value/error has a source` for callers served by an execution**, under the
+virtual clock: every returned caller whose result is an execution's very result object
+(`src ≥ 0`) passes `Spec.C17.hasSource` — same key, same outcome and value, the execution started
+before the caller returned, the caller was invoked before the execution's own caller returned, and
+the caller returned at `max (its invocation instant) (the instant the execution ended)`.
+(`exp`, `e0` — the cache part of the monitor — play no role for these callers.) -/
+theorem monitor_hasSource_exec (h : ReachableLogP cfg (init c0 now0) s g) (ids : List Nat)
+    (exp : Int) (e0 : Int → Spec.C17.Entry) (x : Spec.C17.Call) (hx : x ∈ specCalls cfg s g ids)
+    (hsrc : x.src ≥ 0) :
+    Spec.C17.hasSource exp e0 (specCalls cfg s g ids) (specExecs cfg s g ids) x = true := by
+  have h' := reachableLogP_reachableLog h
+  have hr := reachableLog_reachable h'
+  simp only [specCalls, List.mem_filterMap] at hx
+  obtain ⟨c, hcid, hc⟩ := hx
+  obtain ⟨r, i, t, hd, j1, j2, _, jkey, jinv, jret, jout, jval, jsrc, jti, jtt⟩ := specCall_some hc
+  -- the source is an execution
+  cases hs : s.src c with
+  | none => rw [jsrc, hs] at hsrc; simp [srcIndex] at hsrc
+  | some y =>
+  cases y with
+  | hit v => rw [jsrc, hs] at hsrc; simp [srcIndex] at hsrc
+  | exec l =>
+  rw [hs] at jsrc
+  rcases srcIndex_exec (specExecs cfg s g ids) l with h1 | ⟨j, e, h1, he, hj⟩
+  · rw [jsrc, h1] at hsrc; omega
+  · rw [h1] at jsrc
+    have hmem := List.mem_of_getElem? he
+    simp only [specExecs, List.mem_filterMap] at hmem
+    obtain ⟨l', hl'ids, hl'⟩ := hmem
+    obtain ⟨a, b, r', q1, q2, q3, k1, k2, k3, k4, k5, k6, _, k8⟩ := specExec_some hl'
+    have hll : l' = l := by rw [k4] at hj; omega
+    subst hll
+    have hres := execution_result_returned hr c l' r hs hd
+    rw [hres] at q3; cases q3
+    -- what the log says about c and l'
+    obtain ⟨i2, t2, m1, m2, _, m4⟩ := log_result_has_source h' c r hd
+    rw [j1] at m1; cases m1
+    rw [j2] at m2; cases m2
+    rcases m4 with ⟨v, _, m5, _⟩ | ⟨l2, a2, b2, tl, m5, mkey, _, m7, m8, m9, _, m11, m12, _⟩
+    · rw [hs] at m5; cases m5
+    · rw [hs] at m5; cases m5
+      rw [q1] at m7; cases m7
+      rw [q2] at m8; cases m8
+      -- the leader has returned
+      have hld : ∃ rl, s.pc l' = .done rl := by
+        have := (sinv_reachable h').2.loc l'
+        cases hp : s.pc l' with
+        | done rl => exact ⟨rl, rfl⟩
+        | idle => simp only [SLocal, hp] at this; rw [this.2.1] at m9; cases m9
+        | start => simp only [SLocal, hp] at this; rw [this.2.1] at m9; cases m9
+        | missed => simp only [SLocal, hp] at this; rw [this.2.1] at m9; cases m9
+        | leader => simp only [SLocal, hp] at this; rw [this.2.1] at m9; cases m9
+        | waiting z => simp only [SLocal, hp] at this; rw [this.2.1] at m9; cases m9
+        | running => simp only [SLocal, hp] at this; rw [this.2.1] at m9; cases m9
+        | ran z => simp only [SLocal, hp] at this; rw [this.2] at m9; cases m9
+        | setDone z => simp only [SLocal, hp] at this; rw [this.2] at m9; cases m9
+      obtain ⟨rl, hld⟩ := hld
+      have hlr := leaderRet_of_done h' ids l' hl'ids rl tl hld m9 e k4
+      -- instants
+      have htime : x.retT = max x.invT e.endT := by
+        have tl' := (tinv_reachable h).loc c
+        simp only [TLocal, hd, hs] at tl'
+        rcases tl' with ⟨hlc, ti, te, n1, _, n3, n4, n5⟩ | ⟨_, ti, te, n1, n2, n3, n4⟩
+        · subst hlc
+          have e1 : x.invT = ti := Option.some.inj (jti.symm.trans n1)
+          have e2 : e.endT = te := Option.some.inj (k8.symm.trans n3)
+          have e3 : x.retT = te := Option.some.inj (jtt.symm.trans n4)
+          rw [e1, e2, e3]; omega
+        · have e1 : x.invT = ti := Option.some.inj (jti.symm.trans n1)
+          have e2 : e.endT = te := Option.some.inj (k8.symm.trans n2)
+          have e3 : x.retT = te := Option.some.inj (jtt.symm.trans n3)
+          rw [e1, e2, e3]; omega
+      have hjlt : j < (specExecs cfg s g ids).length := by
+        rcases List.getElem?_eq_some_iff.1 he with ⟨hlt, _⟩; exact hlt
+      unfold Spec.C17.hasSource
+      simp only [Bool.or_eq_true, List.any_eq_true]
+      left
+      refine ⟨j, List.mem_range.2 hjlt, ?_⟩
+      simp only [he, Spec.C17.fromExec, hlr, Bool.and_eq_true, Bool.or_eq_true, beq_iff_eq, decide_eq_true_eq]
+      refine ⟨⟨⟨⟨⟨?_, ?_⟩, Or.inl jsrc⟩, ?_⟩, ?_⟩, htime⟩
+      · rw [k1, jkey, mkey]
+      · rw [jout, jval]; exact eq_of_beq (result_render r e k5 k6)
+      · rw [k2, jret]; omega
+      · rw [jinv]; omega
+
+
+/-! ## what is cached and what a hit reads (virtual clock) -/
+
+/-- under the virtual clock, every entry in the cache is the entry from before the run or was left
+by a successful execution for that very key, with the deadline `defaultExp expTime (the instant that
+execution ended)`: "until it expires" counts from the end of the execution that produced the value -/
+theorem log_cached_entry_origin (h : ReachableLogP cfg (init c0 now0) s g) (k : Nat) (v e : Int)
+    (hc : s.cache k = some (v, e)) : CellOrigin cfg c0 s g k v e :=
+  (cinv_reachable h).orig k v e hc
+
+/-- **(2), cache side**: under the virtual clock, the value a cache hit returned is an entry for the
+caller's own key that was live (`cellGet … = some v`) at the caller's invocation instant: the entry
+from before the run, or the one left by a successful execution of that key that had ended before the
+caller returned, with the deadline counted from that execution's end -/
+theorem log_hit_value_live (h : ReachableLogP cfg (init c0 now0) s g) (c : Nat) (v : Int)
+    (hs : s.src c = some (.hit v)) : HitSource cfg c0 s g c v :=
+  (cinv_reachable h).hit c v hs
 
 end GoguVerif.Theorems.C17
